@@ -286,3 +286,16 @@ PROPS['C16'] = dict(
     assumptions=[],
     stages=[_exports_stage],
 )
+
+PROPS['C18'] = dict(
+    theorem='C18_print, C18_histories_v1_v2 (Properties/C18.v); agreement of digits, formats, searches, Positions by construction (one model function for all versions)',
+    functional=True,
+    level_text='The development uses ONE model function per feature for all three versions (ctor, build, format, find_model, sprint), and each version\'s code is tied to it by that '
+               'feature\'s own correspondence run (C01-C13), so a slip in one copy shows up there as that version\'s disagreement; where the versions\' code differs (v3 row starters vs '
+               'v1/v2 literals, v1-only read paths) the equalities are theorems. On top of that the three implementations are run against each other directly on identical inputs - '
+               'the union of the other generators restricted to the common API, and roots/rationals to depths (3000 quick, 30000 thorough) the model-side oracle does not reach.',
+    level_note='A three-way disagreement is by itself a failing input for this property. Which version is wrong is decided by the per-feature checks (C01, C02, C08, C09, C10, C11, C13).',
+    rule='cases: every distinct (op, args) of the quick generators of C01, C02, C13 (rationals), C08 (Fmt, Str), C09 (common entry points), C10 (Sprint with the common options), C11, run on '
+         'v1, v2, v3 in one process and compared token by token; plus 10 (40 thorough) random radicands/rationals at depth 3000/1000 (30000/10000 thorough). Non-trivial: all; distinct = distinct inputs.',
+    modelled='-', assumptions=[],
+)
